@@ -191,6 +191,12 @@ def live_consts(ctx):
     for m in rep.get("mismatches") or []:
         ctx.mismatches.append(m)
     log("[live] ring slots=%(slots)d channel cap=%(cap)d sync threshold=%(thresh)d bytes -> at most %(syncmax)d buffers" % c)
+    # design-level margin of an index buffer: it is flushed once it holds >= flush_at entries, checked after each 64-byte block,
+    # and the padded tail (<= 64 bytes) is appended to the same buffer: flush_at - 1 + 64 + 64 entries must fit
+    need = c["flush_at"] - 1 + 64 + 64
+    c["margin_ok"] = need <= c.get("buf_size", 1 << 30)
+    log("[live] index buffer: flush at %d, worst case %d entries, physical size %s -> %s" % (
+        c["flush_at"], need, c.get("buf_size"), "fits" if c["margin_ok"] else "DOES NOT FIT (the model's assumption fails; inputs that exercise it are replayed)"))
     return c
 
 
